@@ -242,6 +242,7 @@ def run(ctx):
                    "nothing derived from the event reference is used after the callback")
 
     endpoint_no_use_after_finish(ctx, prog, "R8.no-event-access-after-wake", EV)
+    endpoint_receiver_drop(ctx, prog, "R6.release-and-waker-balance", EV, "local_receiver::LocalReceiverCore")
 
     # ---------------- R3
     for name, b in sorted(fn.items()):
@@ -427,3 +428,66 @@ def endpoint_no_use_after_finish(ctx, prog, rid, event_prefix, finish=("set", "s
                + (" - the receiver's waker ran inside that call and may have released the storage" if uses else ""))
     if n == 0:
         ctx.missing(rid, f"endpoint callers of {event_prefix}{{{', '.join(finish)}}}")
+
+
+def endpoint_receiver_drop(ctx, prog, rid, event_prefix, recv_suffix):
+    """The receiver endpoint's Drop: (1) `final_poll` is reached on every path on which an event reference was taken - the only
+    sanctioned skip is the `Option` of the reference being empty; (2) after `final_poll` the event is released on every path
+    except the one where its result is `Ok(None)` - decided by THAT result, not by an earlier look at the event."""
+    from ..analysis import skips_only_via
+    drops = [b for b in prog.bodies if b.impl_trait and b.impl_trait.endswith("ops::Drop") and b.impl_adt and b.impl_adt.endswith(recv_suffix) and b.name == "drop"]
+    if not drops:
+        ctx.missing(rid, f"Drop for {recv_suffix}")
+        return
+    d = drops[0]
+    ctx.fn(d)
+    fp = [(bb, t) for bb, t in d.calls() if callee_key(t["callee"]).startswith(event_prefix.rstrip(":")) and t["callee"].get("method") == "final_poll"]
+    rel = [(bb, t) for bb, t in d.calls() if t["callee"].get("method") == "release_event" and not d.blocks[bb].cleanup]
+    if len(fp) != 1 or not rel:
+        ctx.ob(rid, f"{recv_suffix.split('::')[-1]}.drop.shape", False, d.loc(), f"final_poll sites {len(fp)}, release_event sites {len(rel)}")
+        return
+    fbb, ft = fp[0]
+
+    def only_option_empty(u, v, src, lab):
+        # `if let Some(event_ref) = self.event_ref.take()`: the None side
+        return src.get("kind") == "discr" and _is_variant0(d, u, lab) and "Option" in str(d.local_ty((src.get("place") or {}).get("l", 0))["s"])
+    ok1, _e = skips_only_via(d, [fbb], only_option_empty)
+    ctx.ob(rid, f"{recv_suffix.split('::')[-1]}.drop.always-final-poll", ok1, d.loc(ft["span"]),
+           f"every path that holds an event reference reaches final_poll: {ok1}" + ("" if ok1 else " - a receiver that goes away without the cancelling transition leaves the sender believing somebody still listens"))
+    res = {ft["dest"]["l"]}
+    changed = True
+    while changed:
+        changed = False
+        for blk in d.blocks:
+            for st in blk.stmts:
+                if st["k"] == "assign" and st["rv"]["k"] == "use" and not st["place"]["p"]:
+                    pl = op_place(st["rv"]["op"])
+                    if pl is not None and pl["l"] in res and not pl["p"] and st["place"]["l"] not in res:
+                        res.add(st["place"]["l"])
+                        changed = True
+
+    def ok_none_edge(u, v, src, lab):
+        pl = src.get("place") or {}
+        inner = any(isinstance(e, dict) and e.get("v") == "Ok" for e in pl.get("p", []))
+        return src.get("kind") == "discr" and pl.get("l") in res and inner and _is_variant0(d, u, lab)
+    rets = d.exits(("return",))
+    r = d.reachable(d.term_succ(fbb, False), unwind=False, avoid=[bb for bb, _ in rel],
+                    avoid_edges=[(blk.idx, tg) for blk in d.blocks if blk.term["k"] == "switch"
+                                 for lab, tg in (blk.term["arms"] + [["otherwise", blk.term["otherwise"]]]) if ok_none_edge(blk.idx, tg, _src(d, blk), lab)])
+    ok2 = not [x for x in rets if x in r]
+    ctx.ob(rid, f"{recv_suffix.split('::')[-1]}.drop.release-unless-ok-none", ok2, d.loc(rel[0][1]["span"]),
+           f"after final_poll every path releases the event except the `Ok(None)` arm of its result: {ok2}" +
+           ("" if ok2 else " - a terminal outcome (value waiting, or sender gone) that is not followed by release_event leaks the event; a decision taken from an earlier look at the event is stale once final_poll ran the waker's destructor"))
+
+
+def _is_variant0(d, u, lab):
+    """Does edge label `lab` of the switch at block u mean `discriminant == 0` (None / Ok)? Either the listed arm 0, or the
+    `otherwise` arm of a two-variant switch that lists only 1."""
+    listed = [v for v, _t in d.blocks[u].term["arms"]]
+    return lab == 0 or (lab == "otherwise" and listed == [1])
+
+
+def _src(d, blk):
+    from ..analysis import discr_source
+    l = op_local(blk.term["discr"])
+    return discr_source(d, l) if l is not None else {}
